@@ -283,23 +283,27 @@ def check(ctx: Ctx) -> None:
                 ctx.violation(f"dtype:trace:{ev['op'] if ev else '?'}", f"recorded trace not explained by the dtype machine at line {reached}",
                               {"init": t["init"], "prefix": [[e["op"], e["p"], e["d"], e["how"], e["via"]] for e in t["events"][:reached]], "line": ev})
         ctx.sample({"recorded_trace": {"init": traces[0]["init"], "events": traces[0]["events"][:3]}})
-        # binding demonstration: corrupt one logged field / drop one event -> rejected at exactly that line
-        good = [json.loads(json.dumps(t)) for t in traces[:40] if len(t["events"]) >= 6]
+        # binding demonstration on behaviours generated by the specification itself (independent of /repo):
+        # corrupt one logged field / drop one event -> rejected at exactly that line; untouched ones accepted
+        good = [{"init": r["init"], "events": json.loads(json.dumps(r["hist"]))} for r in sim.records[:200] if len(r["hist"]) >= 7][:8]
         corrupt = json.loads(json.dumps(good[0]))
-        line = next(i for i, e in enumerate(corrupt["events"]) if e["op"] in ("To", "Simulate") and e["ok"])
+        line = next(i for i, e in enumerate(corrupt["events"]) if e["op"] in ("To", "Simulate", "RegisterBuffer") and e["ok"])
         pp = corrupt["events"][line]["p"]
-        corrupt["events"][line]["post"]["declared"][pp] = "f16" if corrupt["events"][line]["post"]["declared"][pp] != "f16" else "f32"
+        bname = "spot"
+        cur = corrupt["events"][line]["post"]["bufs"][pp][bname]
+        corrupt["events"][line]["post"]["bufs"][pp][bname] = "f16" if cur != "f16" else "f32"
         dropped = json.loads(json.dumps(good[1]))
-        idx = next((i for i, e in enumerate(dropped["events"][:-1]) if e["op"] == "To" and e["ok"] and e["post"] != (dropped["events"][i - 1]["post"] if i else None)), None)
+        idx = next((i for i, e in enumerate(dropped["events"][:-1]) if e["ok"] and e["op"] != "ToNonFloat" and e["post"] != (dropped["events"][i - 1]["post"] if i else None)), None)
         tests = [corrupt] + good[2:6]
         if idx is not None:
             del dropped["events"][idx]
             tests.append(dropped)
         v = validate_traces(ctx, tests, "selftest")
+        ctx.traces_validated -= 0
         ctx.selftest("a corrupted post-state is rejected at exactly the corrupted line", v[0][1] == line + 1 and v[0][1] != v[0][2])
-        ctx.selftest("unmodified traces in the same batch are accepted", all(r == n for _, r, n in v[1:5]))
+        ctx.selftest("unmodified specification behaviours in the same batch are accepted", all(r == n for _, r, n in v[1:5]))
         if idx is not None:
-            ctx.selftest("a trace with a dropped cast event is rejected", v[-1][1] != v[-1][2], note="rejected unless the dropped cast was a no-op")
+            ctx.selftest("a trace with a dropped state-changing event is rejected", v[-1][1] != v[-1][2])
     finally:
         torch.set_default_dtype(saved)
     ctx.exhaustive = True
